@@ -28,6 +28,7 @@ type script struct {
 	mode  int
 	n     int
 	drawn int
+	raw   int // percentage of draws that are raw 64-bit words instead of level-shaped ones
 }
 
 func (s *script) level() int {
@@ -60,9 +61,25 @@ func (s *script) level() int {
 	}
 }
 
-func (s *script) Uint64() uint64 { return uint64(1) << (32 - s.level()) }
-func (s *script) Int63() int64   { return int64(s.Uint64() >> 1) }
-func (s *script) Seed(int64)     {}
+func (s *script) Uint64() uint64 {
+	if s.raw > 0 && s.rng.Intn(100) < s.raw {
+		// raw words, including 0 and words whose low 32 bits are all zero
+		s.drawn++
+		switch s.rng.Intn(4) {
+		case 0:
+			return 0
+		case 1:
+			return uint64(s.rng.Uint32()) << 32
+		case 2:
+			return s.rng.Uint64()
+		default:
+			return 1<<64 - 1
+		}
+	}
+	return uint64(1) << (32 - s.level())
+}
+func (s *script) Int63() int64 { return int64(s.Uint64() >> 1) }
+func (s *script) Seed(int64)   {}
 
 // plant replaces the private *rand.Rand of a skip list. Returns false if the
 // field is not there (then the list's own randomness is used).
@@ -173,8 +190,9 @@ func (p *plain[K]) Keys() []int {
 }
 func (p *plain[K]) Values() []int { return p.s.Values() }
 func (p *plain[K]) All() iter.Seq2[int, int] {
+	seq := p.s.All() // obtained now, run (possibly much) later
 	return func(yield func(int, int) bool) {
-		p.s.All()(func(k K, v int) bool { return yield(p.from(k), v) })
+		seq(func(k K, v int) bool { return yield(p.from(k), v) })
 	}
 }
 
@@ -233,8 +251,9 @@ func (p *withCmp[K]) Keys() []int {
 }
 func (p *withCmp[K]) Values() []int { return p.s.Values() }
 func (p *withCmp[K]) All() iter.Seq2[int, int] {
+	seq := p.s.All() // obtained now, run (possibly much) later
 	return func(yield func(int, int) bool) {
-		p.s.All()(func(k K, v int) bool { return yield(p.from(k), v) })
+		seq(func(k K, v int) bool { return yield(p.from(k), v) })
 	}
 }
 
@@ -291,6 +310,10 @@ type sut struct {
 	// operations' own results are compared); then everything is verified.
 	quiet     int
 	quietCase bool
+	// kept: an All() sequence obtained at an earlier point (possibly on the empty
+	// list); running it later, more than once, must enumerate the bindings of then
+	kept    iter.Seq2[int, int]
+	keptAge int
 }
 
 func (s *sut) sameKey(a, b int) bool { return s.m.ord.cls(a) == s.m.ord.cls(b) }
@@ -415,6 +438,25 @@ func (s *sut) enumerate() bool {
 		}
 	}) || !s.seqEqual("All", got, want) {
 		return false
+	}
+	if s.kept != nil {
+		for pass := 0; pass < 2; pass++ {
+			got = got[:0]
+			if !c.Guard("All(kept)", func() {
+				s.kept(func(k, v int) bool {
+					got = append(got, kv{k, v})
+					return len(got) <= len(want)+3
+				})
+			}) || !s.seqEqual("All(kept)", got, want) {
+				return false
+			}
+		}
+		c.Add("kept_sequences_rerun", 1)
+		s.keptAge++
+	}
+	if s.kept == nil || c.Rng.Chance(1, 3) {
+		c.Guard("All", func() { s.kept = s.l.All() })
+		s.keptAge = 0
 	}
 	var chain []kv
 	if !c.Guard("Head/Next", func() { chain = s.l.Chain(len(want) + 3) }) || !s.seqEqual("Head/Next chain", chain, want) {
@@ -798,7 +840,7 @@ func seqCase(c *ev.Case) {
 	if !c.Guard("New", func() { l, ord, name = build(variant, zero) }) {
 		return
 	}
-	sc := &script{rng: rng.Fork(), mode: rng.Intn(6)}
+	sc := &script{rng: rng.Fork(), mode: rng.Intn(6), raw: rng.Pick(0, 0, 0, 5, 30)}
 	s := &sut{c: c, l: l, m: &model{ord: ord}, sc: sc, zero: zero, quietCase: rng.Chance(1, 3)}
 	if !zero {
 		s.plant = plant(l.Raw(), sc)
@@ -910,11 +952,25 @@ func tallCase(c *ev.Case) {
 	s.plant = plant(l.Raw(), sc)
 	c.Logf("%s tall towers planted=%v", name, s.plant)
 	n := rng.Range(3, 40)
+	if rng.Chance(1, 4) {
+		n = rng.Range(33, 48) // the top level reaches its maximum of 32
+	}
 	keys := rng.Perm(64)[:n]
 	for _, k := range keys {
 		if !s.opSet(k, k+100, 0) {
 			return
 		}
+	}
+	if n >= 33 {
+		c.Add("tall_scripts_at_max_level", 1)
+		sc.raw = 60
+		for i := 0; i < 12; i++ {
+			if !s.opSet(100+i, i, 0) {
+				return
+			}
+		}
+		sc.raw = 0
+		s.maxKey = 112
 	}
 	if !s.enumerate() || !s.rangeQueries(4) {
 		return
@@ -969,5 +1025,7 @@ func main() {
 	r.Require("range_start_present", 5000)
 	r.Require("zero_value_scripts", 100)
 	r.Require("quiet_windows_closed", 3000)
+	r.Require("kept_sequences_rerun", 5000)
+	r.Require("tall_scripts_at_max_level", 100)
 	r.Finish()
 }
